@@ -8,6 +8,8 @@
    and policy id (reason text not compared here; C11 pins it down whenever a rule is reported). *)
 From Coq Require Import List Bool String.
 From Rbacx Require Import Value Cond Target Policy PolicySet Compiler PolicyProofs CompilerProofs.
+From Rbacx Require Import Oblig Engine EngineProofs Cache CacheProofs CacheKey CacheKeyProofs CacheGuard
+  CacheGuardProofs CacheExplain CacheExplain2 CacheExplain3.
 Import ListNotations.
 Local Open Scope string_scope.
 
@@ -117,3 +119,336 @@ Example c03_example_no_type :      (* request type null, [permit * id=X, deny *]
                             rl "d" "deny" "read" [("type", VStr "*")]])])
     (rq VNull (VStr "X")) tt)) = "deny".
 Proof. vm_compute. reflexivity. Qed.
+
+(* ------------------------------------------------------------------ *)
+(* at Guard level and through the decision cache (theories/CacheExplain3.v) *)
+(* ------------------------------------------------------------------ *)
+Local Open Scope list_scope.   (* ++ is list append below *)
+(* guard_decide = Guard._decide_async: the compiled function when compile() succeeded AND the call does not
+   raise; when it raises (logged) the interpreter decides — over ALL rules of the policy.
+   tier_policy al rt bs rules = {"algorithm": al, "rules": the rules of the most specific tier holding a
+   matching rule, document order} — the reference policy of c03_compiled_eq_reference.
+   decision_sim / gres_sim: same verdict, effect, obligations, challenge, reported rule, policy id (what
+   raw_sim leaves of a Decision; the reason text is not compared, C11 pins it down when a rule is reported).
+   gres_of e ctx = what Guard makes of a decision function's answer with the built-in checker:
+   GDecision (finish builtin_oblig r ctx) | GRaise w | GOod.
+   Cached statements: vocabulary and hypotheses as in props/C01.v (h = pre ++ HEval w req :: post, answer
+   number [evals_in pre], [policy_at w pre g1 g2]; hypotheses of c08_transparent_key_safe). *)
+
+(* (1) both Guard paths, under the hypotheses of c03_compiled_eq_reference as they are: Guard holds a
+   compiled function; when the reference evaluation of the tier does not raise, Guard answers what the
+   compiled function answers, eres_sim-equal to that reference; when it raises, Guard answers the
+   interpreter's evaluation of the WHOLE policy (every rule, document order) *)
+Theorem c03_guard_single_is_tier_reference : forall rel kvs env al rules action rt bs,
+  let policy := VObj kvs in
+  let resource := py_or (get_key "resource" env) (VObj []) in
+  let strict := if strict_of env then Some true else None in
+  has_key "policies" policy = false ->
+  compiled_algo policy = Some al -> algo_of_string al <> OtherAlgo ->
+  policy_rules policy = Some rules -> forallb is_obj rules = true ->
+  env_action env = Some action ->
+  (if is_null (get_key "action" env) then Some "" else py_str (get_key "action" env)) = Some action ->
+  (if is_null (get_key "type" resource) then Some None
+   else option_map Some (py_str (get_key "type" resource))) = Some rt ->
+  buckets action rt resource strict rules = Ok bs ->
+  compilable policy = true /\
+  match fst (evaluate unit (relh_pure rel) None (tier_policy al rt bs rules) env tt) with
+  | EErr _ =>
+      fst (guard_decide unit (relh_pure rel) policy env tt) = fst (evaluate unit (relh_pure rel) None policy env tt)
+  | ref =>
+      eres_sim ref (fst (guard_decide unit (relh_pure rel) policy env tt)) /\
+      guard_decide unit (relh_pure rel) policy env tt = compiled_decide unit (relh_pure rel) policy env tt
+  end.
+Proof. exact guard_single_is_tier_reference. Qed.
+Print Assumptions c03_guard_single_is_tier_reference.
+
+(* the fallback path is not taken when no rule of the selected tier raises *)
+Theorem c03_guard_single_tier_no_raise : forall rel kvs env al rules action rt bs,
+  let policy := VObj kvs in
+  let resource := py_or (get_key "resource" env) (VObj []) in
+  let strict := if strict_of env then Some true else None in
+  has_key "policies" policy = false ->
+  compiled_algo policy = Some al -> algo_of_string al <> OtherAlgo ->
+  policy_rules policy = Some rules -> forallb is_obj rules = true ->
+  env_action env = Some action ->
+  (if is_null (get_key "action" env) then Some "" else py_str (get_key "action" env)) = Some action ->
+  (if is_null (get_key "type" resource) then Some None
+   else option_map Some (py_str (get_key "type" resource))) = Some rt ->
+  buckets action rt resource strict rules = Ok bs ->
+  (forall rule, In rule (tier_rules rt (best_tier bs) rules) -> forall w, outcome_of rel rule env <> OErr w) ->
+  eres_sim (fst (evaluate unit (relh_pure rel) None (tier_policy al rt bs rules) env tt))
+           (fst (guard_decide unit (relh_pure rel) policy env tt)).
+Proof. exact guard_single_tier_no_raise. Qed.
+Print Assumptions c03_guard_single_tier_no_raise.
+
+(* the two paths coincide — Guard, the tier reference and the interpreter over the whole policy all agree —
+   when the algorithm is explicit (no F12) and the rules outside the selected tier are not applicable
+   (c03_not_applicable_irrelevant) *)
+Theorem c03_guard_single_paths_coincide : forall rel kvs env al rules action rt bs,
+  let policy := VObj kvs in
+  let resource := py_or (get_key "resource" env) (VObj []) in
+  let strict := if strict_of env then Some true else None in
+  has_key "policies" policy = false ->
+  compiled_algo policy = Some al -> algo_of_string al <> OtherAlgo ->
+  py_truthy (get_key "algorithm" policy) = true ->
+  policy_rules policy = Some rules -> forallb is_obj rules = true ->
+  env_action env = Some action ->
+  (if is_null (get_key "action" env) then Some "" else py_str (get_key "action" env)) = Some action ->
+  (if is_null (get_key "type" resource) then Some None
+   else option_map Some (py_str (get_key "type" resource))) = Some rt ->
+  buckets action rt resource strict rules = Ok bs ->
+  drops rel env rules (tier_rules rt (best_tier bs) rules) ->
+  eres_sim (fst (evaluate unit (relh_pure rel) None (tier_policy al rt bs rules) env tt))
+           (fst (guard_decide unit (relh_pure rel) policy env tt)) /\
+  eres_sim (fst (evaluate unit (relh_pure rel) None (tier_policy al rt bs rules) env tt))
+           (fst (evaluate unit (relh_pure rel) None policy env tt)).
+Proof. exact guard_single_paths_coincide. Qed.
+Print Assumptions c03_guard_single_paths_coincide.
+
+(* the same for the answer of Guard on a request (guard_eval, built-in obligation checker) *)
+Theorem c03_guard_eval_single_is_tier_reference : forall rel strictf kvs req resolved env al rules action rt bs,
+  let policy := VObj kvs in
+  let resource := py_or (get_key "resource" env) (VObj []) in
+  let strict := if strict_of env then Some true else None in
+  build_env strictf req resolved = Some env ->
+  has_key "policies" policy = false ->
+  compiled_algo policy = Some al -> algo_of_string al <> OtherAlgo ->
+  policy_rules policy = Some rules -> forallb is_obj rules = true ->
+  env_action env = Some action ->
+  (if is_null (get_key "action" env) then Some "" else py_str (get_key "action" env)) = Some action ->
+  (if is_null (get_key "type" resource) then Some None
+   else option_map Some (py_str (get_key "type" resource))) = Some rt ->
+  buckets action rt resource strict rules = Ok bs ->
+  match fst (evaluate unit (relh_pure rel) None (tier_policy al rt bs rules) env tt) with
+  | EErr _ =>
+      fst (guard_eval unit (relh_pure rel) builtin_oblig strictf policy req resolved tt)
+      = gres_of (fst (evaluate unit (relh_pure rel) None policy env tt)) (get_key "context" env)
+  | ref =>
+      gres_sim (gres_of ref (get_key "context" env))
+               (fst (guard_eval unit (relh_pure rel) builtin_oblig strictf policy req resolved tt))
+  end.
+Proof. exact guard_eval_single_is_tier_reference. Qed.
+Print Assumptions c03_guard_eval_single_is_tier_reference.
+
+(* (2) rules whose action or resource target does not match the request — match_actions / match_resource
+   (C05) say so: target_mismatch — may be added or removed anywhere: the Decision of guard_eval keeps its
+   verdict, effect, obligations, challenge, reported rule and policy id on either path, and is the very same
+   answer (reason text included) when the compiled function does not raise.  (On the fallback path the
+   interpreter's reason text of a no-match deny names the LAST mismatch and may differ.) *)
+Theorem c03_mismatch_is_nonmatching : forall action rt resource strict r,
+  target_mismatch action resource strict r = true -> matching action rt resource strict r = false.
+Proof. exact mismatch_not_matching. Qed.
+Print Assumptions c03_mismatch_is_nonmatching.
+
+Theorem c03_guard_nonmatching_rules_irrelevant :
+  forall rel strictf kvs kvs' req resolved env al rules rules' action rt bs bs',
+  let policy := VObj kvs in
+  let policy' := VObj kvs' in
+  let resource := py_or (get_key "resource" env) (VObj []) in
+  let strict := if strict_of env then Some true else None in
+  build_env strictf req resolved = Some env ->
+  has_key "policies" policy = false -> has_key "policies" policy' = false ->
+  compiled_algo policy = Some al -> compiled_algo policy' = Some al -> algo_of_string al <> OtherAlgo ->
+  py_truthy (get_key "algorithm" policy) = true -> py_truthy (get_key "algorithm" policy') = true ->
+  policy_rules policy = Some rules -> policy_rules policy' = Some rules' ->
+  forallb is_obj rules = true -> forallb is_obj rules' = true ->
+  env_action env = Some action ->
+  (if is_null (get_key "action" env) then Some "" else py_str (get_key "action" env)) = Some action ->
+  (if is_null (get_key "type" resource) then Some None
+   else option_map Some (py_str (get_key "type" resource))) = Some rt ->
+  adds_mismatching action resource strict rules rules' ->
+  buckets action rt resource strict rules = Ok bs ->
+  buckets action rt resource strict rules' = Ok bs' ->
+  gres_sim (fst (guard_eval unit (relh_pure rel) builtin_oblig strictf policy' req resolved tt))
+           (fst (guard_eval unit (relh_pure rel) builtin_oblig strictf policy req resolved tt)) /\
+  ((forall w, fst (compiled_decide unit (relh_pure rel) policy env tt) <> EErr w) ->
+   guard_eval unit (relh_pure rel) builtin_oblig strictf policy' req resolved tt
+   = guard_eval unit (relh_pure rel) builtin_oblig strictf policy req resolved tt).
+Proof. exact guard_nonmatching_rules_irrelevant. Qed.
+Print Assumptions c03_guard_nonmatching_rules_irrelevant.
+
+(* with C03's own relation (matching = false) and any obligation checker, when no rule of the policy raises *)
+Theorem c03_guard_nonmatching_rules_irrelevant_compiled :
+  forall rel oblig strictf kvs kvs' req resolved env al rules rules' action rt bs bs',
+  let policy := VObj kvs in
+  let policy' := VObj kvs' in
+  let resource := py_or (get_key "resource" env) (VObj []) in
+  let strict := if strict_of env then Some true else None in
+  build_env strictf req resolved = Some env ->
+  has_key "policies" policy = false -> has_key "policies" policy' = false ->
+  compiled_algo policy = Some al -> compiled_algo policy' = Some al ->
+  policy_rules policy = Some rules -> policy_rules policy' = Some rules' ->
+  forallb is_obj rules = true -> forallb is_obj rules' = true ->
+  (if is_null (get_key "action" env) then Some "" else py_str (get_key "action" env)) = Some action ->
+  (if is_null (get_key "type" resource) then Some None
+   else option_map Some (py_str (get_key "type" resource))) = Some rt ->
+  adds_nonmatching action rt resource strict rules rules' ->
+  buckets action rt resource strict rules = Ok bs ->
+  buckets action rt resource strict rules' = Ok bs' ->
+  (forall rule, In rule rules -> forall w, outcome_of rel rule env <> OErr w) ->
+  guard_eval unit (relh_pure rel) oblig strictf policy' req resolved tt
+  = guard_eval unit (relh_pure rel) oblig strictf policy req resolved tt.
+Proof. exact guard_nonmatching_rules_irrelevant_compiled. Qed.
+Print Assumptions c03_guard_nonmatching_rules_irrelevant_compiled.
+
+(* (1) through the cache: whatever is answered at a site — hit or miss; Decision, exception or out of domain —
+   while the guard holds a single policy *)
+Theorem c03_single_is_tier_reference_cached :
+  forall (rel : rel_query -> bool) (T : Type) (tag : value -> T) (teqb : T -> T -> bool),
+  (forall a b, teqb a b = true <-> a = b) ->
+  forall (M : cache_impl T), contract T teqb M ->
+  forall (copying : bool) (g1 g2 : gcfg) (h : list hop),
+  tag_inj T tag (policies_all g1 g2 h) ->
+  (forall e, In e (envs_all g1 g2 h) -> key_safe e = true) ->
+  forall pre w req post hit o kvs env al rules action rt bs,
+  let policy := VObj kvs in
+  let resource := py_or (get_key "resource" env) (VObj []) in
+  let strict := if strict_of env then Some true else None in
+  h = pre ++ HEval w req :: post ->
+  nth_error (snd (run_cached unit (relh_pure rel) T tag canon builtin_both M copying h (init unit T M g1 g2 tt)))
+            (evals_in pre) = Some (hit, o) ->
+  policy_at w pre g1 g2 = policy ->
+  build_env (guard_strict w g1 g2) req None = Some env ->
+  has_key "policies" policy = false ->
+  compiled_algo policy = Some al -> algo_of_string al <> OtherAlgo ->
+  policy_rules policy = Some rules -> forallb is_obj rules = true ->
+  env_action env = Some action ->
+  (if is_null (get_key "action" env) then Some "" else py_str (get_key "action" env)) = Some action ->
+  (if is_null (get_key "type" resource) then Some None
+   else option_map Some (py_str (get_key "type" resource))) = Some rt ->
+  buckets action rt resource strict rules = Ok bs ->
+  match fst (evaluate unit (relh_pure rel) None (tier_policy al rt bs rules) env tt) with
+  | EErr _ => o = gres_of (fst (evaluate unit (relh_pure rel) None policy env tt)) (get_key "context" env)
+  | ref => gres_sim (gres_of ref (get_key "context" env)) o
+  end.
+Proof. exact single_is_tier_reference_cached. Qed.
+Print Assumptions c03_single_is_tier_reference_cached.
+
+(* the Decision form (cached_decision_parts): d = the gate applied to the raw decision r of the policy held
+   at the site and THIS request's context; r is raw_sim-equal to the tier's reference decision (compiled
+   path) or is the interpreter's decision on the whole policy (fallback path) *)
+Theorem c03_single_tier_decision_cached :
+  forall (rel : rel_query -> bool) (T : Type) (tag : value -> T) (teqb : T -> T -> bool),
+  (forall a b, teqb a b = true <-> a = b) ->
+  forall (M : cache_impl T), contract T teqb M ->
+  forall (copying : bool) (g1 g2 : gcfg) (h : list hop),
+  tag_inj T tag (policies_all g1 g2 h) ->
+  (forall e, In e (envs_all g1 g2 h) -> key_safe e = true) ->
+  forall pre w req post hit d kvs env al rules action rt bs,
+  let policy := VObj kvs in
+  let resource := py_or (get_key "resource" env) (VObj []) in
+  let strict := if strict_of env then Some true else None in
+  h = pre ++ HEval w req :: post ->
+  nth_error (snd (run_cached unit (relh_pure rel) T tag canon builtin_both M copying h (init unit T M g1 g2 tt)))
+            (evals_in pre) = Some (hit, GDecision d) ->
+  policy_at w pre g1 g2 = policy ->
+  build_env (guard_strict w g1 g2) req None = Some env ->
+  has_key "policies" policy = false ->
+  compiled_algo policy = Some al -> algo_of_string al <> OtherAlgo ->
+  policy_rules policy = Some rules -> forallb is_obj rules = true ->
+  env_action env = Some action ->
+  (if is_null (get_key "action" env) then Some "" else py_str (get_key "action" env)) = Some action ->
+  (if is_null (get_key "type" resource) then Some None
+   else option_map Some (py_str (get_key "type" resource))) = Some rt ->
+  buckets action rt resource strict rules = Ok bs ->
+  exists k r,
+    get_key "context" env = VObj k /\ guard_decide unit (relh_pure rel) policy env tt = (ERaw r, tt) /\
+    d = finish builtin_oblig r (VObj k) /\
+    match fst (evaluate unit (relh_pure rel) None (tier_policy al rt bs rules) env tt) with
+    | ERaw r0 => raw_sim r0 r /\ decision_sim (finish builtin_oblig r0 (VObj k)) d
+    | EErr _ => fst (evaluate unit (relh_pure rel) None policy env tt) = ERaw r
+    | EOod => False
+    end.
+Proof. exact single_tier_decision_cached. Qed.
+Print Assumptions c03_single_tier_decision_cached.
+
+(* (2) through the cache: the answer at a site where the guard holds the policy with (without) the
+   mismatching rules is what a guard holding the policy without (with) them answers *)
+Theorem c03_nonmatching_rules_irrelevant_cached :
+  forall (rel : rel_query -> bool) (T : Type) (tag : value -> T) (teqb : T -> T -> bool),
+  (forall a b, teqb a b = true <-> a = b) ->
+  forall (M : cache_impl T), contract T teqb M ->
+  forall (copying : bool) (g1 g2 : gcfg) (h : list hop),
+  tag_inj T tag (policies_all g1 g2 h) ->
+  (forall e, In e (envs_all g1 g2 h) -> key_safe e = true) ->
+  forall pre w req post hit o kvs kvs' env al rules rules' action rt bs bs',
+  let policy := VObj kvs in
+  let policy' := VObj kvs' in
+  let resource := py_or (get_key "resource" env) (VObj []) in
+  let strict := if strict_of env then Some true else None in
+  h = pre ++ HEval w req :: post ->
+  nth_error (snd (run_cached unit (relh_pure rel) T tag canon builtin_both M copying h (init unit T M g1 g2 tt)))
+            (evals_in pre) = Some (hit, o) ->
+  build_env (guard_strict w g1 g2) req None = Some env ->
+  has_key "policies" policy = false -> has_key "policies" policy' = false ->
+  compiled_algo policy = Some al -> compiled_algo policy' = Some al -> algo_of_string al <> OtherAlgo ->
+  py_truthy (get_key "algorithm" policy) = true -> py_truthy (get_key "algorithm" policy') = true ->
+  policy_rules policy = Some rules -> policy_rules policy' = Some rules' ->
+  forallb is_obj rules = true -> forallb is_obj rules' = true ->
+  env_action env = Some action ->
+  (if is_null (get_key "action" env) then Some "" else py_str (get_key "action" env)) = Some action ->
+  (if is_null (get_key "type" resource) then Some None
+   else option_map Some (py_str (get_key "type" resource))) = Some rt ->
+  adds_mismatching action resource strict rules rules' ->
+  buckets action rt resource strict rules = Ok bs ->
+  buckets action rt resource strict rules' = Ok bs' ->
+  (policy_at w pre g1 g2 = policy' ->
+     gres_sim o (fst (guard_eval unit (relh_pure rel) builtin_oblig (guard_strict w g1 g2) policy req None tt)) /\
+     ((forall w0, fst (compiled_decide unit (relh_pure rel) policy env tt) <> EErr w0) ->
+      o = fst (guard_eval unit (relh_pure rel) builtin_oblig (guard_strict w g1 g2) policy req None tt))) /\
+  (policy_at w pre g1 g2 = policy ->
+     gres_sim o (fst (guard_eval unit (relh_pure rel) builtin_oblig (guard_strict w g1 g2) policy' req None tt)) /\
+     ((forall w0, fst (compiled_decide unit (relh_pure rel) policy env tt) <> EErr w0) ->
+      o = fst (guard_eval unit (relh_pure rel) builtin_oblig (guard_strict w g1 g2) policy' req None tt))).
+Proof. exact nonmatching_rules_irrelevant_cached. Qed.
+Print Assumptions c03_nonmatching_rules_irrelevant_cached.
+
+(* non-vacuity (theories/CacheExplain3.v): deny-overrides over [permit read doc id "7" ; deny read doc] on a
+   read of doc/"7": the tier decides — Guard permits by p7, the interpreter over all rules would deny by d *)
+Example c03_guard_example_tier_decides :
+  fst (guard_decide unit (relh_pure (fun _ => false)) (VObj tier_kvs) tenv tt) = ERaw raw_p7 /\
+  fst (evaluate unit (relh_pure (fun _ => false)) None (VObj tier_kvs) tenv tt) = ERaw raw_d /\
+  fst (evaluate unit (relh_pure (fun _ => false)) None
+         (tier_policy "deny-overrides" (Some "doc") tbs [rule_p7; rule_d]) tenv tt) = ERaw raw_p7 /\
+  tier_rules (Some "doc") (best_tier tbs) [rule_p7; rule_d] = [rule_p7].
+Proof. exact t_tier_decides. Qed.
+(* the hypotheses hold of that policy, of the one with two mismatching rules added, and of that request *)
+Example c03_guard_example_hypotheses :
+  build_env false treq None = Some tenv /\
+  c03_hyps tier_kvs tenv "deny-overrides" [rule_p7; rule_d] "read" (Some "doc") tbs /\
+  c03_hyps tier_kvs' tenv "deny-overrides" [rule_img; rule_p7; rule_w; rule_d] "read" (Some "doc") tbs.
+Proof. exact t_hypotheses. Qed.
+Example c03_guard_example_theorem_applied :
+  eres_sim (fst (evaluate unit (relh_pure (fun _ => false)) None
+                   (tier_policy "deny-overrides" (Some "doc") tbs [rule_p7; rule_d]) tenv tt))
+           (fst (guard_decide unit (relh_pure (fun _ => false)) (VObj tier_kvs) tenv tt)).
+Proof. exact t_guard_is_tier_reference. Qed.
+Example c03_guard_example_nonmatching :
+  adds_mismatching "read" (py_or (get_key "resource" tenv) (VObj [])) (if strict_of tenv then Some true else None)
+                   [rule_p7; rule_d] [rule_img; rule_p7; rule_w; rule_d] /\
+  guard_eval unit (relh_pure (fun _ => false)) builtin_oblig false (VObj tier_kvs') treq None tt
+  = guard_eval unit (relh_pure (fun _ => false)) builtin_oblig false (VObj tier_kvs) treq None tt.
+Proof. exact (conj t_adds t_nonmatching_irrelevant). Qed.
+(* history th on DefaultInMemoryCache(4): evaluate (miss); again (HIT); set_policy(policy with the two
+   mismatching rules); evaluate (miss); again (HIT) *)
+Example c03_cached_example_answers :
+  map summary touts =
+  [(false, Some (true, Some "p7", "matched")); (true, Some (true, Some "p7", "matched"));
+   (false, Some (true, Some "p7", "matched")); (true, Some (true, Some "p7", "matched"))].
+Proof. exact t_answers. Qed.
+Example c03_cached_example_hypotheses :
+  tag_inj value canon (policies_all tg tg th) /\
+  (forall e, In e (envs_all tg tg th) -> key_safe e = true) /\
+  (forall p, In p (policies_all tg tg th) -> tree_ok p).
+Proof. exact t_history_hypotheses. Qed.
+(* the first HIT is the gate applied to the tier's reference decision; the second HIT (guard holding the
+   larger policy) is what a guard holding the smaller policy answers *)
+Example c03_cached_example_hits :
+  (forall o, nth_error touts 1 = Some (true, o) -> gres_sim (gres_of (ERaw raw_p7) (VObj [])) o) /\
+  (forall o, nth_error touts 3 = Some (true, o) ->
+     o = fst (guard_eval unit (relh_pure (fun _ => false)) builtin_oblig false (VObj tier_kvs) treq None tt)) /\
+  (exists d, nth_error touts 1 = Some (true, GDecision d) /\ d_allowed d = true /\ d_rule_id d = Some "p7") /\
+  (exists d, nth_error touts 3 = Some (true, GDecision d) /\ d_allowed d = true /\ d_rule_id d = Some "p7").
+Proof.
+  exact (conj t_hit_is_tier_reference (conj t_hit_nonmatching_irrelevant t_hits_exist)).
+Qed.
